@@ -309,3 +309,564 @@ Proof.
   cbn [bind]. change (String.eqb "elements" "elements") with true. cbv iota. reflexivity.
 Qed.
 End FinalArr.
+
+(* ================================================================================================ alignment of lists *)
+Lemma Forall2_impl {A B} (R S : A -> B -> Prop) l1 l2 : (forall a b, R a b -> S a b) -> Forall2 R l1 l2 -> Forall2 S l1 l2.
+Proof. intros H. induction 1; constructor; auto. Qed.
+Lemma mapM_two {A B C} (f : A -> res B) (g : A -> res C) l r1 r2 :
+  mapM f l = Ok r1 -> mapM g l = Ok r2 -> Forall2 (fun a b => exists x, In x l /\ f x = Ok a /\ g x = Ok b) r1 r2.
+Proof.
+  revert r1 r2; induction l as [|x l IH]; intros r1 r2 H1 H2.
+  - cbn in H1, H2. inversion H1; inversion H2. constructor.
+  - apply mapM_cons_ok in H1 as (a & r1' & Ha & H1 & ->). apply mapM_cons_ok in H2 as (b & r2' & Hb & H2 & ->).
+    constructor; [exists x; split; [left; reflexivity|auto]|].
+    eapply Forall2_impl; [|apply (IH _ _ H1 H2)]. intros a' b' (x' & Hin & Hf & Hg). exists x'. split; [right; exact Hin|auto].
+Qed.
+Lemma Forall2_compose {A B C} (R : A -> B -> Prop) (S : B -> C -> Prop) l1 l2 l3 :
+  Forall2 R l1 l2 -> Forall2 S l2 l3 -> Forall2 (fun a c => exists b, R a b /\ S b c) l1 l3.
+Proof.
+  intros H. revert l3. induction H as [|a b l1 l2 Hab H IH]; intros l3 H2; inversion H2; subst; constructor; eauto.
+Qed.
+Lemma Forall2_map_r {A B C} (R : A -> C -> Prop) (f : B -> C) l1 l2 :
+  Forall2 (fun a b => R a (f b)) l1 l2 -> Forall2 R l1 (map f l2).
+Proof. induction 1; cbn [map]; constructor; auto. Qed.
+Lemma Forall2_map_r_inv {A B C} (R : A -> C -> Prop) (f : B -> C) l1 l2 :
+  Forall2 R l1 (map f l2) -> Forall2 (fun a b => R a (f b)) l1 l2.
+Proof.
+  revert l1; induction l2 as [|b l2 IH]; intros l1 H; cbn [map] in H; inversion H; subst; constructor; auto.
+Qed.
+Lemma Forall2_filter2 {A B} (R : A -> B -> Prop) (p : A -> bool) (q : B -> bool) l1 l2 :
+  Forall2 R l1 l2 -> (forall x y, R x y -> p x = q y) -> Forall2 R (filter p l1) (filter q l2).
+Proof.
+  intros H Hpq. induction H as [|x y l1 l2 Hxy H IH]; cbn [filter]; [constructor|].
+  rewrite <- (Hpq _ _ Hxy). destruct (p x); [constructor|]; assumption.
+Qed.
+Lemma mapM_Forall2_fg {A B C} (f : A -> res C) (g : B -> res C) l1 l2 :
+  Forall2 (fun x y => f x = g y) l1 l2 -> mapM f l1 = mapM g l2.
+Proof. induction 1 as [|x y l1 l2 Hxy H IH]; cbn [mapM]; [reflexivity|]. rewrite Hxy, IH. reflexivity. Qed.
+Lemma stage_Forall2 (f : lobj -> res lobj) (l r : list (xid * lobj)) :
+  mapM (fun ko => do o <- f (snd ko) ;; Ok (fst ko, o)) l = Ok r ->
+  Forall2 (fun ko ko' => fst ko' = fst ko /\ f (snd ko) = Ok (snd ko')) l r.
+Proof.
+  intros H. apply mapM_Forall2_of in H. eapply Forall2_impl; [|exact H]. intros [k o] [k' o'] Hx. cbn [fst snd] in *.
+  apply bind_ok in Hx as (o1 & Ho1 & Hx). inversion Hx; subst. auto.
+Qed.
+Lemma zlookup_Forall2 {V W} (R : V -> W -> Prop) (l1 : list (Z * V)) (l2 : list (Z * W)) k v :
+  Forall2 (fun a b => fst b = fst a /\ R (snd a) (snd b)) l1 l2 -> zlookup k l1 = Some v ->
+  exists v', zlookup k l2 = Some v' /\ R v v'.
+Proof.
+  induction 1 as [|[k1 v1] [k2 v2] l1 l2 [Hk HR] H IH]; cbn [zlookup fst snd] in *; [discriminate|]. subst k2.
+  destruct (k =? k1); [intros Hv; inversion Hv; subst; eauto|exact IH].
+Qed.
+Lemma fold_zset_map {A V} (key : A -> Z) (val : A -> V) l : NoDup (map key l) ->
+  fold_left (fun a x => zset (key x) (val x) a) l [] = map (fun x => (key x, val x)) l.
+Proof. intros ND. rewrite fold_zset_nodup; [reflexivity|exact ND]. Qed.
+
+(* ================================================================================================ pieces of the assembly *)
+Lemma map_pair_id {A B} (l : list (A * B)) : map (fun x => (fst x, snd x)) l = l.
+Proof. induction l as [|[a b] r IH]; cbn [map fst snd]; [reflexivity|]. rewrite IH. reflexivity. Qed.
+Lemma mapM_In_fwd {A B} (f : A -> res B) l r x : mapM f l = Ok r -> In x l -> exists y, In y r /\ f x = Ok y.
+Proof.
+  revert r; induction l as [|a l IH]; intros r H Hin; [contradiction|].
+  apply mapM_cons_ok in H as (y & ys & Hy & Hys & ->). destruct Hin as [->|Hin].
+  - exists y. split; [left; reflexivity|exact Hy].
+  - destruct (IH _ Hys Hin) as (y' & Hy' & Hf). exists y'. split; [right; exact Hy'|exact Hf].
+Qed.
+Lemma members_of_zlookup views i : NoDup (map fst views) ->
+  members_of views i = zsort (match zlookup i views with Some ms => ms | None => [] end).
+Proof.
+  unfold members_of. intros ND. f_equal. induction views as [|[k ms] r IH]; cbn [filter flat_map zlookup fst snd map] in *; [reflexivity|].
+  inversion ND as [|? ? Hn ND']; subst. rewrite (Z.eqb_sym k i). destruct (i =? k) eqn:E.
+  - apply Z.eqb_eq in E. subst k. cbn [flat_map snd].
+    assert (Hnone : filter (fun v => fst v =? i) r = []).
+    { clear - Hn. induction r as [|[k' m'] r IH]; cbn [filter fst map] in *; [reflexivity|].
+      destruct (k' =? i) eqn:E; [apply Z.eqb_eq in E; subst; exfalso; apply Hn; left; reflexivity|]. apply IH. intros H. apply Hn. right. exact H. }
+    rewrite Hnone. cbn. apply app_nil_r.
+  - apply IH. exact ND'.
+Qed.
+Lemma resolve_arr_spec fss kso kso' : resolve_arr fss kso = Ok kso' ->
+  fst kso' = fst kso /\ ps_id (snd kso') = ps_id (snd kso) /\ ps_num (snd kso') = ps_num (snd kso) /\
+  ps_name (snd kso') = ps_name (snd kso) /\ ps_text (snd kso') = ps_text (snd kso) /\ ps_mime (snd kso') = ps_mime (snd kso) /\
+  ps_uri (snd kso') = ps_uri (snd kso) /\
+  match ps_arr (snd kso) with
+  | None => ps_arrp (snd kso') = ps_arrp (snd kso)
+  | Some a => exists i o, int_attr a = Ok i /\ zlookup i fss = Some o /\ ps_arrp (snd kso') = Some i
+  end.
+Proof.
+  unfold resolve_arr. destruct kso as [k so]. cbn [fst snd]. destruct (ps_arr so) as [a|] eqn:Ea.
+  - intros H. apply bind_ok in H as (i & Hi & H). destruct (zlookup i fss) as [o|] eqn:El; [|discriminate].
+    inversion H; subst kso'. cbn. repeat split; auto. exists i, o. auto.
+  - intros H. inversion H; subst kso'. cbn [fst snd]. repeat split; auto.
+Qed.
+Lemma dec_fs_id pf s sofas e i cf : dec_fs pf s sofas e = Ok (i, cf) -> x_id e = Ok i.
+Proof.
+  unfold dec_fs. intros H. apply bind_ok in H as (i' & Hi & H). destruct (type_of_elem (x_ns e) (x_tag e)); [|discriminate].
+  destruct (sch_find s t); [|discriminate]. destruct (if is_array_name t then coll_kind t else None).
+  - apply bind_ok in H as (o & _ & H). inversion H; subst. exact Hi.
+  - apply bind_ok in H as (o & _ & H). inversion H; subst. exact Hi.
+Qed.
+Lemma is_other_split e : is_other e = is_null e || is_fs e.
+Proof.
+  unfold is_other, is_fs. destruct (is_null e) eqn:En; cbn [orb negb]; [|reflexivity].
+  unfold is_null, is_sofa, is_view, is_cas in *. apply andb_true_iff in En as [E1 E2]. apply String.eqb_eq in E2. rewrite E1, E2. reflexivity.
+Qed.
+Lemma null_tname e : is_null e = true -> reader_tname (x_ns e) (x_tag e) = T_NULL.
+Proof.
+  unfold is_null, is_cas. intros H. apply andb_true_iff in H as [E1 E2]. apply String.eqb_eq in E1, E2. rewrite E1, E2. vm_compute. reflexivity.
+Qed.
+
+Lemma sch_find_in s n t : sch_find s n = Some t -> In t s.
+Proof.
+  induction s as [|x r IH]; cbn [sch_find]; [discriminate|]. destruct (String.eqb n (ti_name x)).
+  - intros H. inversion H. left. reflexivity.
+  - intros H. right. apply IH. exact H.
+Qed.
+Lemma Forall2_mapM_id {A B} (f : A -> res Z) (g : B -> Z) l1 l2 :
+  Forall2 (fun e o => f e = Ok (g o)) l1 l2 -> mapM f l1 = Ok (map g l2).
+Proof. induction 1 as [|x y l1 l2 Hxy H IH]; cbn [mapM map]; [reflexivity|]. rewrite Hxy, IH. reflexivity. Qed.
+
+Lemma pipeline {E} (f1 : E -> res lobj) (f2 f3 : lobj -> res lobj) (f4 : lobj -> lobj) es : forall os objs objs1,
+  mapM f1 es = Ok os ->
+  mapM (fun ko => do o <- f2 (snd ko) ;; Ok (fst ko, o)) (map (fun o => (lo_id o, o)) os) = Ok objs ->
+  mapM (fun ko => do o <- f3 (snd ko) ;; Ok (fst ko, o)) objs = Ok objs1 ->
+  Forall2 (fun e ko3 => exists o o' o'', f1 e = Ok o /\ f2 o = Ok o' /\ f3 o' = Ok o'' /\ ko3 = (lo_id o, f4 o''))
+          es (map (fun ko => (fst ko, f4 (snd ko))) objs1).
+Proof.
+  induction es as [|e es IH]; intros os objs objs1 H1 H2 H3.
+  - cbn in H1. inversion H1; subst os. cbn in H2. inversion H2; subst objs. cbn in H3. inversion H3; subst objs1. constructor.
+  - apply mapM_cons_ok in H1 as (o & os' & Ho & Hos & ->). cbn [map] in H2.
+    apply mapM_cons_ok in H2 as (ko' & objs' & Hko' & Hobjs' & ->). cbn [fst snd] in Hko'.
+    apply bind_ok in Hko' as (o' & Ho' & Hko'). inversion Hko'; subst ko'.
+    apply mapM_cons_ok in H3 as (ko'' & objs1' & Hko'' & Hobjs1' & ->). cbn [fst snd] in Hko''.
+    apply bind_ok in Hko'' as (o'' & Ho'' & Hko''). inversion Hko''; subst ko''.
+    cbn [map fst snd]. constructor; [exists o, o', o''; auto|]. eapply IH; eauto.
+Qed.
+
+(* the sofa reference of an annotation after the three stages *)
+Lemma sofa_slot_after pf s psofas fss sofas e ti o o' o'' :
+  sch_find s (reader_tname (x_ns e) (x_tag e)) = Some ti -> ti_ok s ti -> elem_ok s ti e ->
+  has_feat ti "sofa" = true -> memb T_ANNOTATION_BASE (ti_anc ti) = true -> is_array_name (ti_name ti) = false ->
+  parse_fs pf s e = Ok o -> post_obj pf s psofas fss o = Ok o' -> conv_obj s sofas o' = Ok o'' ->
+  exists a z so0, xattr e "sofa" = Some a /\ s2z a = Some z /\ zlookup z psofas = Some so0 /\
+                  alookup "sofa" (lo_slots o'') = Some (LSofa z) /\ lslot o' "sofa" = LSofa z.
+Proof.
+  intros Hfind Hti Hel Hhf Hbase Harr Hparse Hpost Hconvo.
+  pose proof (sch_find_name _ _ _ Hfind) as Hname.
+  assert (Hfind' : sch_find s (ti_name ti) = Some ti) by (rewrite Hname; exact Hfind).
+  destruct (parse_fs_head pf s e ti o Hfind Hel Hparse) as (Ht0 & _ & _).
+  assert (Hf0 : sch_find s (lo_type o) = Some ti) by (rewrite Ht0; exact Hfind').
+  unfold has_feat in Hhf. destruct (fd_find (ti_feats ti) "sofa") as [fds|] eqn:Ef; [|discriminate].
+  assert (Hfds : In fds (ti_feats ti) /\ fd_name fds = "sofa").
+  { clear - Ef. induction (ti_feats ti) as [|f r IH]; cbn [fd_find] in Ef; [discriminate|].
+    destruct (String.eqb "sofa" (fd_name f)) eqn:E; [inversion Ef; subst; apply String.eqb_eq in E; split; [left; reflexivity|auto]|].
+    destruct (IH Ef) as [A B]. split; [right; exact A|exact B]. }
+  destruct Hfds as [Hins Hns'].
+  destruct (tk_feat _ _ Hti fds Hins) as (Hpys & _ & _).
+  assert (Hxs : fd_xname fds = "sofa") by (apply pyname_plain; [reflexivity|reflexivity|rewrite <- Hpys; exact Hns']).
+  destruct (parse_fs_slot pf s e ti o fds Hfind Hti Hel Harr Hparse Hins) as (_ & _ & Hslots).
+  unfold slot_rel in Hslots. rewrite Hns', Hbase in Hslots. cbn [String.eqb andb] in Hslots.
+  change (String.eqb "sofa" "sofa") with true in Hslots. cbv iota in Hslots. rewrite Hxs in Hslots. destruct Hslots as [_ Hslots].
+  destruct (post_obj_slots pf s psofas fss o o' ti fds Hpost Hf0 (tk_nodup _ _ Hti) Hins) as (_ & _ & vs & Hvs & Hss).
+  rewrite Hns' in Hvs, Hss.
+  assert (Hpf : forall v0, post_feature pf s psofas fss ti fds v0 =
+                  match v0 with LInt i => match zlookup i psofas with Some _ => Ok (LSofa i) | None => Err EKey end | _ => Err EKey end).
+  { intros v0. unfold post_feature. rewrite Hns', Hbase. reflexivity. }
+  rewrite Hpf in Hvs.
+  destruct (xattr e "sofa") as [a|]; [|rewrite Hslots in Hvs; discriminate].
+  destruct Hslots as (z & Hz & Hl). rewrite Hl in Hvs. destruct (zlookup z psofas) as [so0|] eqn:Ez; [|discriminate].
+  injection Hvs as Hvs'. exists a, z, so0. repeat split; auto.
+  - destruct (conv_obj_spec s sofas o' o'' Hconvo) as (_ & _ & Cs & _). rewrite Cs. apply lslot_alookup; [rewrite Hss, <- Hvs'; reflexivity|discriminate].
+  - rewrite Hss, <- Hvs'. reflexivity.
+Qed.
+
+Lemma zlookup_in_nodup {V} (l : list (Z * V)) k v : NoDup (map fst l) -> In (k, v) l -> zlookup k l = Some v.
+Proof.
+  induction l as [|[k0 v0] r IH]; cbn [map fst In zlookup]; intros ND Hin; [contradiction|].
+  inversion ND as [|? ? Hn ND']; subst. destruct Hin as [H|H].
+  - inversion H; subst. rewrite Z.eqb_refl. reflexivity.
+  - destruct (k =? k0) eqn:E; [apply Z.eqb_eq in E; subst; exfalso; apply Hn; apply in_map_iff; exists (k0, v); auto|apply IH; assumption].
+Qed.
+Lemma Forall2_in_l {A B} (R : A -> B -> Prop) l1 l2 x : Forall2 R l1 l2 -> In x l1 -> exists y, In y l2 /\ R x y.
+Proof.
+  induction 1 as [|a b l1 l2 Hab H IH]; intros Hin; [contradiction|]. destruct Hin as [->|Hin].
+  - exists b. split; [left; reflexivity|exact Hab].
+  - destruct (IH Hin) as (y & Hy & HR). exists y. split; [right; exact Hy|exact HR].
+Qed.
+Lemma Forall2_in_r {A B} (R : A -> B -> Prop) l1 l2 y : Forall2 R l1 l2 -> In y l2 -> exists x, In x l1 /\ R x y.
+Proof.
+  induction 1 as [|a b l1 l2 Hab H IH]; intros Hin; [contradiction|]. destruct Hin as [->|Hin].
+  - exists a. split; [left; reflexivity|exact Hab].
+  - destruct (IH Hin) as (x & Hx & HR). exists x. split; [right; exact Hx|exact HR].
+Qed.
+Lemma mapM_map_gen {A B C} (f : A -> res B) (g : B -> C) (h : A -> C) l r :
+  (forall x y, f x = Ok y -> g y = h x) -> mapM f l = Ok r -> map g r = map h l.
+Proof.
+  intros Hk. revert r; induction l as [|x l IH]; intros r H.
+  - cbn in H. inversion H; reflexivity.
+  - apply mapM_cons_ok in H as (y & ys & Hy & Hys & ->). cbn [map]. rewrite (Hk _ _ Hy), (IH _ Hys). reflexivity.
+Qed.
+Lemma parse_sofa_name e so : parse_sofa e = Ok so -> ps_name so = sofa_name e /\ ps_arrp so = None.
+Proof.
+  unfold parse_sofa, sofa_name. intros H. apply bind_ok in H as (i & _ & H). apply bind_ok in H as (num & _ & H).
+  destruct (negb _); [discriminate|]. destruct (xattr e "sofaID") as [name|]; cbn [bind] in H; [|discriminate].
+  apply bind_ok in H as (txt & _ & H). inversion H; subst so. cbn. auto.
+Qed.
+Lemma Forall2_keys {E} (R : E -> lobj -> Prop) es (l : list (xid * lobj)) os :
+  Forall2 (fun e ko => exists o, R e o /\ fst ko = lo_id o) es l -> Forall2 R es os ->
+  (forall e o o', R e o -> R e o' -> o = o') -> map fst l = map lo_id os.
+Proof.
+  intros H1 H2 Hfun. revert os H2. induction H1 as [|e ko es l (o & Ho & Hk) H IH]; intros os H2; inversion H2; subst; cbn [map]; [reflexivity|].
+  rewrite Hk, (Hfun e o y Ho H3). f_equal. apply IH. assumption.
+Qed.
+
+Lemma zlookup_some_in {V} k (l : list (Z * V)) v : zlookup k l = Some v -> In (k, v) l.
+Proof.
+  induction l as [|[k0 v0] r IH]; cbn [zlookup]; [discriminate|]. destruct (k =? k0) eqn:E.
+  - intros H. inversion H; subst. apply Z.eqb_eq in E. subst. left. reflexivity.
+  - intros H. right. apply IH. exact H.
+Qed.
+Lemma zinsert_perm x l : Permutation (zinsert x l) (x :: l).
+Proof.
+  induction l as [|y r IH]; cbn [zinsert]; [apply Permutation_refl|]. destruct (x <=? y); [apply Permutation_refl|].
+  eapply Permutation_trans; [apply perm_skip; exact IH|apply perm_swap].
+Qed.
+Lemma zsort_is_perm l : Permutation (zsort l) l.
+Proof.
+  unfold zsort. induction l as [|x r IH]; cbn [fold_right]; [constructor|].
+  eapply Permutation_trans; [apply zinsert_perm|constructor; exact IH].
+Qed.
+Lemma cond_members s nulls views cc : cond s nulls views cc = true ->
+  forall c, In c (cc_sofas cc) -> (forall i, In i (cs_members c) -> In i (map fst (cc_fs cc))) /\
+                                  (forall z, cs_arr c = Some z -> In z (map fst (cc_fs cc))).
+Proof.
+  unfold cond. rewrite !andb_true_iff. intros [_ H] c Hin. rewrite forallb_forall in H. specialize (H c Hin).
+  rewrite forallb_forall in H. split.
+  - intros i Hi. apply memZ_In. apply H. apply in_or_app. left. exact Hi.
+  - intros z Hz. apply memZ_In. apply H. apply in_or_app. right. rewrite Hz. left. reflexivity.
+Qed.
+Lemma is_fs_other e : is_fs e = true -> is_other e = true.
+Proof. intros H. rewrite is_other_split, H. apply orb_true_r. Qed.
+Lemma array_no_sofa s ti : ti_ok s ti -> is_array_name (ti_name ti) = true -> has_feat ti "sofa" = false.
+Proof.
+  intros Hti Harr. destruct (tk_arr _ _ Hti Harr) as (fd & Hf & Hn & _). unfold has_feat. rewrite Hf. cbn [fd_find]. rewrite Hn. reflexivity.
+Qed.
+
+Lemma Forall2_with_in {A B} (R : A -> B -> Prop) l1 l2 : Forall2 R l1 l2 -> Forall2 (fun x y => In x l1 /\ In y l2 /\ R x y) l1 l2.
+Proof.
+  induction 1 as [|x y l1 l2 Hxy H IH]; constructor.
+  - split; [left; reflexivity|split; [left; reflexivity|exact Hxy]].
+  - eapply Forall2_impl; [|exact IH]. intros a b (Ha & Hb & HR). split; [right; exact Ha|split; [right; exact Hb|exact HR]].
+Qed.
+Lemma Forall2_mapM_gen {A B C} (f : A -> res C) (g : B -> C) l1 l2 :
+  Forall2 (fun x y => f x = Ok (g y)) l1 l2 -> mapM f l1 = Ok (map g l2).
+Proof. induction 1 as [|x y l1 l2 Hxy H IH]; cbn [mapM map]; [reflexivity|]. rewrite Hxy, IH. reflexivity. Qed.
+Lemma find_Forall2 {V} (R : xid * V -> csofa -> Prop) (l1 : list (xid * V)) (l2 : list csofa) i v :
+  Forall2 (fun a b => cs_id b = fst a /\ R a b) l1 l2 -> zlookup i l1 = Some v ->
+  exists c, find (fun c => Z.eqb (cs_id c) i) l2 = Some c /\ R (i, v) c.
+Proof.
+  induction 1 as [|[k a] b l1 l2 [Hk HR] H IH]; cbn [zlookup find fst] in *; [discriminate|]. rewrite Hk. cbn [fst].
+  rewrite (Z.eqb_sym k i). destruct (i =? k) eqn:E.
+  - intros Hv. inversion Hv; subst. apply Z.eqb_eq in E. subst. exists b. auto.
+  - exact IH.
+Qed.
+
+Lemma filter_filter_impl {A} (p q : A -> bool) l : (forall x, p x = true -> q x = true) -> filter p (filter q l) = filter p l.
+Proof.
+  intros H. induction l as [|x r IH]; cbn [filter]; [reflexivity|]. destruct (q x) eqn:Eq; cbn [filter].
+  - rewrite IH. reflexivity.
+  - destruct (p x) eqn:Ep; [rewrite (H x Ep) in Eq; discriminate|exact IH].
+Qed.
+Lemma mapM_map {A B C} (f : B -> res C) (g : A -> B) l : mapM f (map g l) = mapM (fun x => f (g x)) l.
+Proof. induction l as [|x r IH]; cbn [map mapM]; [reflexivity|]. rewrite IH. reflexivity. Qed.
+Lemma mapM_id_list (f : Z -> res Z) l : (forall x, In x l -> f x = Ok x) -> mapM f l = Ok l.
+Proof.
+  induction l as [|x r IH]; intros H; cbn [mapM]; [reflexivity|]. rewrite (H x (or_introl eq_refl)). cbn [bind].
+  rewrite IH; [reflexivity|]. intros y Hy. apply H. right. exact Hy.
+Qed.
+
+Section Global.
+Variable pf : string -> option flt.
+
+Theorem load_xmi_is_denotation s d c :
+  reader_okb pf s d = true -> load_xmi pf s false d = Ok c -> canon_loaded s c = denote_xmi pf s d.
+Proof.
+  intros Hok Hload.
+  unfold reader_okb in Hok. rewrite !andb_true_iff in Hok.
+  destruct Hok as [[[[[[[Hdoc Hsch] Hsf] Hnames] Helems] Hsofas] Hmem] Hids].
+  (* ---- the document ---- *)
+  apply doc_ok_unfold in Hdoc as (nulls & dviews & cc & Hn & Hv & Hd & Hc).
+  destruct (cond_nodup _ _ _ _ Hc) as (NDs & NDf & NDv).
+  pose proof Hd as Hd0. apply denote_unfold in Hd as (dsofas & dviews' & dfss & D1 & D2 & D3 & Hcc).
+  rewrite Hv in D2. inversion D2; subst dviews'. clear D2. subst cc. cbn [cc_sofas cc_fs] in *.
+  assert (NDs' : NoDup (map cs_id dsofas)).
+  { rewrite <- (map_id_with_members dviews). eapply Permutation_NoDup; [|exact NDs]. apply Permutation_map. apply sort_by_is_perm. }
+  assert (NDf' : NoDup (map fst dfss)).
+  { eapply Permutation_NoDup; [|exact NDf]. apply Permutation_map. apply sort_by_is_perm. }
+  (* ---- the reader, stage by stage ---- *)
+  rewrite load_xmi_tail in Hload. apply bind_ok in Hload as (st & Hp1 & Hload). unfold load_tail in Hload.
+  apply bind_ok in Hload as (objs & Hp2 & Hload). apply bind_ok in Hload as (sofas & Hra & Hload).
+  apply bind_ok in Hload as (objs1 & Hcv & Hload). apply bind_ok in Hload as ([views objs2] & Hvl & Hload).
+  destruct (pass1_split pf s d p1_init st Hp1) as (ps & pvs & os & S1 & S2 & S3 & F1 & F2 & F3 & F4).
+  cbn [p1_init p_sofas p_views p_fss p_lids] in F1, F2, F3, F4.
+  (* views of the document *)
+  assert (Epv : pvs = dviews).
+  { unfold doc_views in Hv. rewrite (mapM_ext parse_view dec_view) in S2 by (intros; apply parse_view_dec). congruence. }
+  subst pvs.
+  assert (Epviews : p_views st = dviews).
+  { rewrite F2. exact (eq_trans (fold_zset_map fst snd dviews NDv) (map_pair_id dviews)). }
+  (* sofas of the document *)
+  assert (Asof : Forall2 (fun so c => exists e, In e (filter is_sofa d) /\ parse_sofa e = Ok so /\ dec_sofa e = Ok c) ps dsofas)
+    by (apply (mapM_two parse_sofa dec_sofa _ _ _ S1 D1)).
+  assert (Eids : map ps_id ps = map cs_id dsofas).
+  { clear - Asof. induction Asof as [|so c ps' ds' (e & _ & H1 & H2) _ IH]; cbn [map]; [reflexivity|].
+    destruct (parse_sofa_dec e so c H1 H2) as (E & _). rewrite E, IH. reflexivity. }
+  assert (NDps : NoDup (map ps_id ps)) by (rewrite Eids; exact NDs').
+  assert (Epsofas : p_sofas st = map (fun so => (ps_id so, so)) ps) by (rewrite F1; apply fold_zset_map; exact NDps).
+  (* the elements that are neither sofas nor views *)
+  apply andb_true_iff in Hsch as [Hsch Hnullt]. apply andb_true_iff in Hsch as [Htis Htop]. apply negb_true_iff in Htop.
+  assert (Hel : forall e, In e (filter is_other d) ->
+            exists ti, sch_find s (reader_tname (x_ns e) (x_tag e)) = Some ti /\ ti_okb s ti = true /\ elem_okb s e = true).
+  { intros e Hin. rewrite forallb_forall in Helems. pose proof (Helems e Hin) as He. unfold elem_okb in He.
+    destruct (sch_find s (reader_tname (x_ns e) (x_tag e))) as [ti|] eqn:Ef; [|discriminate]. exists ti. split; [reflexivity|].
+    split; [|unfold elem_okb; rewrite Ef; exact He]. rewrite forallb_forall in Htis. apply Htis. eapply sch_find_in; eauto. }
+  assert (Aos : Forall2 (fun e o => parse_fs pf s e = Ok o) (filter is_other d) os) by (apply mapM_Forall2_of; exact S3).
+  assert (Aid : Forall2 (fun e o => x_id e = Ok (lo_id o)) (filter is_other d) os).
+  { clear - Aos Hel. induction Aos as [|e o l1 l2 Heo H IH]; constructor.
+    - destruct (Hel e (or_introl eq_refl)) as (ti & Hf & _ & Heb). pose proof (elem_okb_ok s e ti Hf Heb) as Hek.
+      destruct (parse_fs_head pf s e ti o Hf Hek Heo) as (_ & Hx & _). exact Hx.
+    - apply IH. intros e' Hin. apply Hel. right. exact Hin. }
+  assert (NDos : NoDup (map lo_id os)).
+  { unfold other_ids_okb in Hids.
+    replace (mapM x_id (filter is_other d)) with (@Ok (list xid) (map lo_id os)) in Hids by (symmetry; exact (Forall2_mapM_id x_id lo_id _ _ Aid)).
+    apply nodupZ_NoDup. exact Hids. }
+  assert (Efss : p_fss st = map (fun o => (lo_id o, o)) os) by (rewrite F3; apply fold_zset_map; exact NDos).
+  (* the stages, element by element *)
+  unfold pass2 in Hp2. rewrite Efss in *. set (fss := map (fun o => (lo_id o, o)) os) in *.
+  set (psofas := p_sofas st) in *.
+  pose proof (pipeline (parse_fs pf s) (post_obj pf s psofas fss) (conv_obj s sofas) (fixP sofas)
+                       (filter is_other d) os objs objs1 S3 Hp2 Hcv) as Apipe.
+  pose proof (pipeline (parse_fs pf s) (post_obj pf s psofas fss) (conv_obj s sofas) (fun o => o)
+                       (filter is_other d) os objs objs1 S3 Hp2 Hcv) as Apipe1.
+  cbv beta in Apipe1. rewrite map_pair_id in Apipe1.
+  assert (Ekeys1 : map fst objs1 = map lo_id os).
+  { apply (Forall2_keys (fun e o => parse_fs pf s e = Ok o) (filter is_other d) objs1 os); [|exact Aos|congruence].
+    eapply Forall2_impl; [|exact Apipe1]. intros e ko (o & o' & o'' & P1 & _ & _ & ->). exists o. auto. }
+  assert (NDk1 : NoDup (map fst objs1)) by (rewrite Ekeys1; exact NDos).
+  assert (NDfss : NoDup (map fst fss)) by (unfold fss; rewrite map_map; exact NDos).
+  assert (Hmaster : forall e, In e (filter is_other d) -> exists o o' o'',
+            parse_fs pf s e = Ok o /\ post_obj pf s psofas fss o = Ok o' /\ conv_obj s sofas o' = Ok o'' /\
+            zlookup (lo_id o) objs1 = Some o'' /\ zlookup (lo_id o) fss = Some o).
+  { intros e Hin. destruct (Forall2_in_l _ _ _ e Apipe1 Hin) as (ko & Hko & o & o' & o'' & P1 & P2 & P3 & ->).
+    exists o, o', o''. repeat split; auto.
+    - apply zlookup_in_nodup; assumption.
+    - apply zlookup_in_nodup; [exact NDfss|]. destruct (Forall2_in_l _ _ _ e Aos Hin) as (o0 & Ho0 & P0).
+      assert (o0 = o) by congruence. subst o0. unfold fss. apply in_map_iff. exists o. auto. }
+  (* ---- the views ---- *)
+  assert (Asf : Forall2 (fun kso kso' => resolve_arr fss kso = Ok kso') psofas sofas) by (apply mapM_Forall2_of; exact Hra).
+  assert (Ekeys_s : map fst sofas = map ps_id ps).
+  { rewrite Epsofas in Asf. clear - Asf. remember (map (fun so => (ps_id so, so)) ps) as l eqn:El. revert ps El.
+    induction Asf as [|a b l1 l2 Hab H IH]; intros ps El; destruct ps; cbn [map] in *; try discriminate; [reflexivity|].
+    inversion El; subst. destruct (resolve_arr_spec _ _ _ Hab) as (E & _). rewrite E. cbn [fst]. f_equal. apply IH. reflexivity. }
+  assert (Enames_s : names sofas = map sofa_name (filter is_sofa d)).
+  { rewrite <- (mapM_map_gen parse_sofa ps_name sofa_name _ _ (fun x y H => proj1 (parse_sofa_name x y H)) S1).
+    rewrite Epsofas in Asf. clear - Asf. remember (map (fun so => (ps_id so, so)) ps) as l eqn:El. revert ps El.
+    induction Asf as [|a b l1 l2 Hab H IH]; intros ps El; destruct ps; cbn [map names] in *; try discriminate; [reflexivity|].
+    inversion El; subst. destruct (resolve_arr_spec _ _ _ Hab) as (_ & _ & _ & E & _). rewrite E. cbn [snd]. f_equal. apply IH. reflexivity. }
+  apply andb_true_iff in Hsofas as [Hsn Hsi]. apply nodup_sb_NoDup in Hsn. apply memb_In in Hsi.
+  assert (Hid_s : forall kso, In kso sofas -> ps_id (snd kso) = fst kso).
+  { intros kso Hin. destruct (Forall2_in_r _ _ _ kso Asf Hin) as (kso0 & Hin0 & Hr). destruct (resolve_arr_spec _ _ _ Hr) as (E1 & E2 & _).
+    rewrite E1, E2. rewrite Epsofas in Hin0. apply in_map_iff in Hin0 as (so & <- & _). reflexivity. }
+  (* every element with its type facts *)
+  assert (Helx : forall e, In e (filter is_other d) -> exists ti o o' o'',
+            sch_find s (reader_tname (x_ns e) (x_tag e)) = Some ti /\ ti_okb s ti = true /\ elem_okb s e = true /\
+            parse_fs pf s e = Ok o /\ post_obj pf s psofas fss o = Ok o' /\ conv_obj s sofas o' = Ok o'' /\
+            zlookup (lo_id o) objs1 = Some o'' /\ zlookup (lo_id o) fss = Some o /\ x_id e = Ok (lo_id o) /\
+            lo_type o = ti_name ti /\ lo_type o'' = ti_name ti /\ lo_id o'' = lo_id o).
+  { intros e Hin. destruct (Hel e Hin) as (ti & Hf & Htb & Heb). destruct (Hmaster e Hin) as (o & o' & o'' & P1 & P2 & P3 & Z1 & Z2).
+    pose proof (elem_okb_ok s e ti Hf Heb) as Hek. destruct (parse_fs_head pf s e ti o Hf Hek P1) as (T0 & X0 & _).
+    assert (Hf0 : sch_find s (lo_type o) = Some ti) by (rewrite T0, (sch_find_name _ _ _ Hf); exact Hf).
+    destruct (post_obj_head pf s psofas fss o o' ti P2 Hf0) as (T1 & I1 & _).
+    destruct (conv_obj_spec s sofas o' o'' P3) as (T2 & I2 & _).
+    exists ti, o, o', o''. repeat split; auto; congruence. }
+  assert (Hsfp : forall ti, In ti s -> (has_feat ti "sofa" = true -> memb T_ANNOTATION_BASE (ti_anc ti) = true) /\
+                                       (memb T_ANNOTATION (ti_anc ti) = true -> has_feat ti "sofa" = true)).
+  { intros ti Hin. unfold sofa_feat_okb in Hsf. rewrite forallb_forall in Hsf. specialize (Hsf ti Hin). apply andb_true_iff in Hsf as [A B].
+    split; intros H; [rewrite H in A|rewrite H in B]; cbn in *; assumption. }
+  assert (Hready : forall kso, In kso sofas -> Forall (member_ready0 s objs1 (fst kso)) (members_for dviews (snd kso))).
+  { intros [k so] Hin. cbn [fst snd]. pose proof (Hid_s _ Hin) as Hk. cbn [fst snd] in Hk. apply Forall_forall. intros m Hm.
+    unfold members_for in Hm. rewrite Hk in Hm. destruct (zlookup k dviews) as [ms|] eqn:Ezv; [|contradiction].
+    (* the member is a feature structure of the document *)
+    assert (Hkin : In k (map cs_id dsofas)).
+    { rewrite <- Eids, <- Ekeys_s. apply in_map_iff. exists (k, so). auto. }
+    apply in_map_iff in Hkin as (c0 & Hc0 & Hc0in).
+    assert (Hcin : In (with_members dviews c0) (sort_by cs_id (map (with_members dviews) dsofas))).
+    { eapply Permutation_in; [apply Permutation_sym, sort_by_is_perm|]. apply in_map. exact Hc0in. }
+    destruct (cond_members _ _ _ _ Hc _ Hcin) as [Hmem_in _]. cbn [cc_fs cc_sofas] in Hmem_in.
+    assert (Hmfs : In m (map fst dfss)).
+    { eapply Permutation_in; [apply Permutation_map, sort_by_is_perm|]. apply Hmem_in. unfold with_members. cbn [cs_members].
+      rewrite (members_of_zlookup dviews _ NDv), Hc0, Ezv. eapply Permutation_in; [apply Permutation_sym, zsort_is_perm|exact Hm]. }
+    apply in_map_iff in Hmfs as ([m' cf] & Hm' & Hmin). cbn [fst] in Hm'. subst m'.
+    destruct (mapM_In _ _ _ _ D3 Hmin) as (e & Hein & Hde). pose proof (dec_fs_id _ _ _ _ _ _ Hde) as Hxe.
+    apply filter_In in Hein as [Hed Hefs]. assert (Heo : In e (filter is_other d)) by (apply filter_In; split; [exact Hed|apply is_fs_other; exact Hefs]).
+    destruct (Helx e Heo) as (ti & o & o' & o'' & Hf & Htb & Heb & P1 & P2 & P3 & Z1 & Z2 & X0 & T0 & T2 & I2).
+    assert (Hom : lo_id o = m) by congruence. rewrite Hom in Z1.
+    exists o'', ti. split; [exact Z1|]. split; [rewrite T2; eapply sch_find_contains; eauto|].
+    split; [rewrite T2, (sch_find_name _ _ _ Hf); exact Hf|]. intros Hhf.
+    pose proof (ti_okb_ok _ _ Htb) as Hti. pose proof (elem_okb_ok s e ti Hf Heb) as Hek.
+    destruct (Hsfp ti (sch_find_in _ _ _ Hf)) as [Hbase _]. specialize (Hbase Hhf).
+    assert (Harr : is_array_name (ti_name ti) = false).
+    { destruct (is_array_name (ti_name ti)) eqn:E; [|reflexivity]. rewrite (array_no_sofa s ti Hti E) in Hhf. discriminate. }
+    destruct (sofa_slot_after pf s psofas fss sofas e ti o o' o'' Hf Hti Hek Hhf Hbase Harr P1 P2 P3) as (a & z & so0 & Ha & Hz & _ & Hsl & _).
+    (* the view it is a member of is the view of its own sofa *)
+    apply zlookup_some_in in Ezv. unfold doc_views in Hv. destruct (mapM_In _ _ _ _ Hv Ezv) as (ev & Hevin & Hdv).
+    unfold members_okb in Hmem. rewrite forallb_forall in Hmem. specialize (Hmem ev Hevin). rewrite Hdv in Hmem. cbn [fst snd] in Hmem.
+    rewrite forallb_forall in Hmem. specialize (Hmem m Hm). unfold member_okb in Hmem. rewrite forallb_forall in Hmem. specialize (Hmem e Hed).
+    apply filter_In in Heo as [_ Heo]. rewrite Heo, Hxe, Z.eqb_refl, Hf, Hhf, Ha, Hz in Hmem. cbn [negb orb] in Hmem.
+    apply Z.eqb_eq in Hmem. subst z. exact Hsl. }
+  (* the loop itself *)
+  assert (NDks : NoDup (map fst ([] ++ sofas))) by (cbn [app]; rewrite Ekeys_s; exact NDps).
+  assert (NDns : NoDup (names ([] ++ sofas))) by (cbn [app]; rewrite Enames_s; exact Hsn).
+  destruct (view_loop_spec s dviews objs1 sofas [] [(INITIAL, initial_view)] objs1 (inv_init dviews objs1) NDks NDns Hid_s Hready)
+    as (views' & objs' & Hvl' & HI).
+  rewrite Epviews, F4 in Hvl. rewrite Hvl' in Hvl. inversion Hvl; subst views' objs'. clear Hvl. cbn [app] in HI.
+  destruct HI as [Ind Ilook Iinit Ikeys Iobjs].
+  assert (Hini : In INITIAL (names sofas)) by (rewrite Enames_s; exact Hsi).
+  assert (Hex : existsb (fun kso => String.eqb (ps_name (snd kso)) INITIAL) psofas = true).
+  { apply existsb_exists. rewrite Enames_s in Hini. rewrite <- (mapM_map_gen parse_sofa ps_name sofa_name _ _ (fun x y H => proj1 (parse_sofa_name x y H)) S1) in Hini.
+    apply in_map_iff in Hini as (so & Hn0 & Hin0). exists (ps_id so, so). split; [rewrite Epsofas; apply in_map_iff; exists so; auto|].
+    cbn [snd]. rewrite Hn0. apply String.eqb_refl. }
+  rewrite Hex in Hload. inversion Hload; subst c. clear Hload.
+  pose proof (inv_final dviews objs1 sofas views objs2 (mkInv _ _ _ _ _ Ind Ilook Iinit Ikeys Iobjs) (eq_ind _ (fun l => NoDup l) Hsn _ (eq_sym Enames_s)) Hini) as Pviews.
+  (* ---- sofas of the reader against sofas of the denotation ---- *)
+  assert (Asd : Forall2 (fun kso c0 => cs_id c0 = fst kso /\
+                  (ps_id (snd kso) = cs_id c0 /\ ps_num (snd kso) = cs_num c0 /\ ps_name (snd kso) = cs_name c0 /\
+                   ps_text (snd kso) = cs_text c0 /\ ps_mime (snd kso) = cs_mime c0 /\ ps_uri (snd kso) = cs_uri c0 /\
+                   match cs_arr c0 with None => ps_arrp (snd kso) = None
+                                   | Some z => ps_arrp (snd kso) = Some z /\ exists o, zlookup z fss = Some o end)) sofas dsofas).
+  { rewrite Epsofas in Asf. clear - Asf Asof. revert sofas Asf. induction Asof as [|so c0 ps' ds' (e & _ & H1 & H2) _ IH]; intros sofas Asf;
+      cbn [map] in Asf; inversion Asf as [|? kso' ? sofas' Hr Asf']; subst; constructor; [|apply IH; exact Asf'].
+    destruct (parse_sofa_dec e so c0 H1 H2) as (A1 & A2 & A3 & A4 & A5 & A6 & A7 & A8).
+    destruct (resolve_arr_spec _ _ _ Hr) as (B1 & B2 & B3 & B4 & B5 & B6 & B7 & B8). cbn [fst snd] in *.
+    split; [congruence|]. repeat split; try congruence.
+    destruct (ps_arr so) as [a|].
+    - destruct A8 as (z & Hz & ->). destruct B8 as (i & o & Hi & Hl & ->). assert (i = z) by congruence. subst i. split; [reflexivity|exists o; exact Hl].
+    - rewrite A8. congruence. }
+  (* ---- ids: 0 is cas:NULL and nothing else ---- *)
+  pose proof Hc as Hc0. unfold cond in Hc0. rewrite !andb_true_iff in Hc0. destruct Hc0 as [[[[[[C1 C2] C3] C4] C5] C6] C7]. cbn [cc_sofas cc_fs] in *.
+  apply nodupZ_NoDup in C3. apply NoDup_cons_iff in C3 as [C30 _].
+  assert (H0s : ~ In 0 (map cs_id dsofas)).
+  { intros Hin. apply C30. apply in_or_app. left. rewrite <- (map_id_with_members dviews) in Hin.
+    eapply Permutation_in; [apply Permutation_map, Permutation_sym, sort_by_is_perm|exact Hin]. }
+  assert (H0f : ~ In 0 (map fst dfss)).
+  { intros Hin. apply C30. apply in_or_app. right. eapply Permutation_in; [apply Permutation_map, Permutation_sym, sort_by_is_perm|exact Hin]. }
+  assert (Hclass : forall e ti i, In e (filter is_other d) -> sch_find s (reader_tname (x_ns e) (x_tag e)) = Some ti -> x_id e = Ok i ->
+            String.eqb (ti_name ti) T_NULL = (i =? 0) /\ is_fs e = negb (String.eqb (ti_name ti) T_NULL) /\
+            (is_fs e = true -> type_of_elem (x_ns e) (x_tag e) = Some (reader_tname (x_ns e) (x_tag e)))).
+  { intros e ti i Hin Hf Hx. rewrite (sch_find_name _ _ _ Hf). apply filter_In in Hin as [Hed Heo]. rewrite is_other_split in Heo.
+    destruct (is_null e) eqn:Enl.
+    - rewrite (null_tname e Enl). assert (Hfs : is_fs e = false) by (unfold is_fs; rewrite Enl; reflexivity). rewrite Hfs.
+      assert (Hin0 : In e (filter is_null d)) by (apply filter_In; auto).
+      destruct (mapM_In_fwd _ _ _ e Hn Hin0) as (y & Hy & Hxy). rewrite Hx in Hxy. inversion Hxy; subst y.
+      rewrite forallb_forall in C1. specialize (C1 i Hy). apply Z.eqb_eq in C1. subst i. repeat split; try reflexivity. discriminate.
+    - cbn [orb] in Heo. rewrite Heo. unfold names_okb in Hnames. rewrite forallb_forall in Hnames. specialize (Hnames e Hed). rewrite Heo in Hnames. cbn [negb orb] in Hnames.
+      apply andb_true_iff in Hnames as [Hto Hnn]. apply negb_true_iff in Hnn. rewrite Hnn.
+      assert (Hin0 : In e (filter is_fs d)) by (apply filter_In; auto).
+      destruct (mapM_In_fwd _ _ _ e D3 Hin0) as ([i' cf] & Hy & Hde). pose proof (dec_fs_id _ _ _ _ _ _ Hde) as Hx'. rewrite Hx in Hx'. inversion Hx'; subst i'.
+      assert (i <> 0) by (intros ->; apply H0f; apply in_map_iff; exists (0, cf); auto).
+      repeat split; [symmetry; apply Z.eqb_neq; assumption|].
+      intros _. destruct (type_of_elem (x_ns e) (x_tag e)) as [tn|]; cbn [opt_eqb] in Hto; [|discriminate]. apply String.eqb_eq in Hto. rewrite Hto. reflexivity. }
+  (* ---- the hypotheses of the per-element theorem ---- *)
+  assert (Hobj2 : forall k o, zlookup k objs1 = Some o -> zlookup k objs2 = Some (fixP sofas o)).
+  { intros k o H. rewrite Iobjs, zlookup_map_obj, H. reflexivity. }
+  assert (Hderef : deref_ok fss objs2).
+  { intros i o Hz. apply zlookup_some_in in Hz. unfold fss in Hz. apply in_map_iff in Hz as (o0 & Heq & Hino). inversion Heq; subst o0 i. clear Heq.
+    destruct (Forall2_in_r _ _ _ o Aos Hino) as (e & Hein & Hpe).
+    destruct (Helx e Hein) as (ti & o1 & o' & o'' & Hf & Htb & Heb & P1 & P2 & P3 & Z1 & Z2 & X0 & T0 & T2 & I2).
+    assert (o1 = o) by congruence. subst o1.
+    unfold deref. rewrite (Hobj2 _ _ Z1), fixP_type, fixP_id, T2, I2.
+    destruct (Hclass e ti (lo_id o) Hein Hf X0) as (E1 & _). rewrite E1. reflexivity. }
+  assert (Hps : forall i so0, zlookup i psofas = Some so0 -> exists so, zlookup i sofas = Some so).
+  { intros i so0 Hz. destruct (zlookup_Forall2 (fun _ _ => True) psofas sofas i so0) as (so & Hso & _); [|exact Hz|eauto].
+    eapply Forall2_impl; [|exact Asf]. intros a b Hr. destruct (resolve_arr_spec _ _ _ Hr) as (E & _). auto. }
+  assert (Hview : forall i so, zlookup i sofas = Some so -> exists w, alookup (ps_name so) views = Some w /\ ls_id (lv_sofa w) = i).
+  { intros i so Hz. apply zlookup_some_in in Hz. pose proof (Ilook _ Hz) as Hl. cbn [snd] in Hl. rewrite Hl. eexists. split; [reflexivity|]. cbn. apply (Hid_s _ Hz). }
+  assert (Hconv : forall e a i so, xattr e "sofa" = Some a -> s2z a = Some i -> zlookup i sofas = Some so ->
+                                   forall z, conv_of dsofas e z = conv_z (ps_text so) z).
+  { intros e a i so Ha Hz Hl z. unfold conv_of. rewrite Ha, Hz.
+    destruct (find_Forall2 (fun kso c0 => ps_text (snd kso) = cs_text c0) sofas dsofas i so) as (c0 & Hfind & Htxt); [|exact Hl|].
+    - eapply Forall2_impl; [|exact Asd]. intros kso c0 (K & _ & _ & _ & T & _). auto.
+    - rewrite Hfind, conv_z_ext. cbn [snd] in Htxt. rewrite Htxt. destruct (cs_text c0); reflexivity. }
+  assert (Hnz : zlookup 0 psofas = None).
+  { apply zlookup_none_notin. intros Hin. apply H0s. rewrite <- Eids. rewrite Epsofas, map_map in Hin. exact Hin. }
+  assert (Hkeyid1 : forall k o, zlookup k objs1 = Some o -> lo_id o = k).
+  { intros k o Hz. apply zlookup_some_in in Hz. destruct (Forall2_in_r _ _ _ (k, o) Apipe1 Hz) as (e & Hein & o0 & o' & o'' & P1 & P2 & P3 & Heq).
+    inversion Heq; subst k o. destruct (Helx e Hein) as (ti & o1 & o1' & o1'' & _ & _ & _ & Q1 & Q2 & Q3 & _ & _ & _ & _ & _ & I2).
+    assert (o1 = o0) by congruence. subst o1. assert (o1' = o') by congruence. subst o1'. assert (o1'' = o'') by congruence. subst o1''. exact I2. }
+  assert (Hmid2 : forall k o, zlookup k objs1 = Some o -> member_id objs2 k = Ok k).
+  { intros k o Hz. unfold member_id. rewrite (Hobj2 _ _ Hz), fixP_id, (Hkeyid1 _ _ Hz). reflexivity. }
+  assert (Hfss1 : forall i o, zlookup i fss = Some o -> exists o1, zlookup i objs1 = Some o1).
+  { intros i o Hz. apply zlookup_some_in in Hz. unfold fss in Hz. apply in_map_iff in Hz as (o0 & Heq & Hino). inversion Heq; subst o0 i.
+    destruct (Forall2_in_r _ _ _ o Aos Hino) as (e & Hein & Hpe).
+    destruct (Helx e Hein) as (ti & o1 & o' & o'' & _ & _ & _ & P1 & _ & _ & Z1 & _). assert (o1 = o) by congruence. subst o1. eauto. }
+  (* ---- the canonical content ---- *)
+  rewrite Hd0. unfold canon_loaded. cbn [lc_views lc_objs].
+  (* feature structures *)
+  assert (Gfs : mapM (fun ko => canon_obj s views objs2 (snd ko))
+                     (filter (fun ko => negb (String.eqb (lo_type (snd ko)) T_NULL)) objs2) = Ok dfss).
+  { rewrite <- D3. symmetry. rewrite <- (filter_filter_impl is_fs is_other d is_fs_other).
+    apply mapM_Forall2_fg.
+    rewrite <- Iobjs in Apipe. pose proof (Forall2_with_in _ _ _ Apipe) as Ap.
+    pose proof (Forall2_filter2 _ is_fs (fun ko : xid * lobj => negb (String.eqb (lo_type (snd ko)) T_NULL)) _ _ Ap) as Apf.
+    assert (Hpq : forall (x : xelem) (y : xid * lobj),
+              In x (filter is_other d) /\ In y objs2 /\
+              (exists o o' o'', parse_fs pf s x = Ok o /\ post_obj pf s psofas fss o = Ok o' /\ conv_obj s sofas o' = Ok o'' /\ y = (lo_id o, fixP sofas o'')) ->
+              is_fs x = negb (String.eqb (lo_type (snd y)) T_NULL)).
+    { intros e ko (Hein & _ & o & o' & o'' & P1 & P2 & P3 & ->). cbn [snd]. rewrite fixP_type.
+      destruct (Helx e Hein) as (ti & o1 & o1' & o1'' & Hf & _ & _ & Q1 & Q2 & Q3 & _ & _ & X0 & _ & T2 & _).
+      assert (o1 = o) by congruence. subst o1. assert (o1' = o') by congruence. subst o1'. assert (o1'' = o'') by congruence. subst o1''.
+      rewrite T2. destruct (Hclass e ti (lo_id o) Hein Hf X0) as (_ & E2 & _). exact E2. }
+    specialize (Apf Hpq). pose proof (Forall2_with_in _ _ _ Apf) as Apf2.
+    eapply Forall2_impl; [|exact Apf2]. intros e ko (Hefs & _ & Hein & _ & o & o' & o'' & P1 & P2 & P3 & ->). cbn [snd].
+    apply filter_In in Hefs as [_ Hefs].
+    destruct (Helx e Hein) as (ti & o1 & o1' & o1'' & Hf & Htb & Heb & Q1 & _ & _ & _ & _ & X0 & _ & _ & _).
+    assert (o1 = o) by congruence. subst o1.
+    destruct (Hclass e ti (lo_id o) Hein Hf X0) as (_ & _ & Htoe). specialize (Htoe Hefs).
+    assert (Hin0 : In e (filter is_fs d)) by (apply filter_In; split; [apply filter_In in Hein; tauto|exact Hefs]).
+    destruct (mapM_In_fwd _ _ _ e D3 Hin0) as ([i cf] & _ & Hde). rewrite Hde. symmetry.
+    pose proof (ti_okb_ok _ _ Htb) as Hti. pose proof (elem_okb_ok s e ti Hf Heb) as Hek.
+    destruct (Hsfp ti (sch_find_in _ _ _ Hf)) as [Hsf1 Hsf2].
+    destruct (is_array_name (ti_name ti)) eqn:Earr.
+    - apply (elem_final_arr pf s psofas sofas fss views objs2 dsofas Hderef e ti o o' o'' i cf Hf Htb Heb Htop Htoe Earr P1 P2 P3 Hde).
+    - apply (elem_final pf s psofas sofas fss views objs2 dsofas Hderef Hps Hview Hconv Hnz e ti o o' o'' i cf Hf Hti Hek Hsf1 Hsf2 Htoe Earr P1 P2 P3 Hde). }
+  (* views *)
+  assert (Gso0 : mapM (fun kso => canon_view objs2 (snd (view_of dviews kso))) sofas = Ok (map (with_members dviews) dsofas)).
+  { apply Forall2_mapM_gen. pose proof (Forall2_with_in _ _ _ Asd) as Asd'. eapply Forall2_impl; [|exact Asd'].
+    intros [k so] c0 (Hin & _ & K & A1 & A2 & A3 & A4 & A5 & A6 & A7). cbn [fst snd] in *.
+    unfold view_of, canon_view. cbn [snd lv_sofa lv_members lsofa_of ls_id ls_num ls_name ls_text ls_mime ls_uri ls_arr].
+    assert (Hms : mapM (member_id objs2) (members_for dviews so) = Ok (members_for dviews so)).
+    { apply mapM_id_list. intros m Hm. pose proof (Hready _ Hin) as Hr. cbn [fst snd] in Hr. rewrite Forall_forall in Hr.
+      destruct (Hr m Hm) as (o & ti & Hz & _). exact (Hmid2 _ _ Hz). }
+    rewrite Hms. cbn [bind].
+    assert (Harr : (match ps_arrp so with Some k0 => do i <- member_id objs2 k0 ;; Ok (Some i) | None => Ok None end) = Ok (cs_arr c0)).
+    { destruct (cs_arr c0) as [z|].
+      - destruct A7 as (-> & o & Hz). destruct (Hfss1 _ _ Hz) as (o1 & Hz1). rewrite (Hmid2 _ _ Hz1). reflexivity.
+      - rewrite A7. reflexivity. }
+    rewrite Harr. cbn [bind]. unfold with_members. rewrite (members_of_zlookup dviews _ NDv).
+    unfold members_for. rewrite A1, A2, A3, A4, A5, A6. reflexivity. }
+  rewrite <- (mapM_map (fun nv => canon_view objs2 (snd nv)) (view_of dviews)) in Gso0.
+  destruct (mapM_perm _ _ _ (Permutation_sym Pviews) _ Gso0) as (cs & Hcs & Pcs).
+  rewrite Hcs. cbn [bind]. rewrite Gfs. cbn [bind]. f_equal. f_equal.
+  symmetry. apply sort_by_perm; [exact Pcs|]. rewrite map_id_with_members. exact NDs'.
+Qed.
+End Global.
+
+(* the reader does not depend on the presentation of the document *)
+Corollary load_order_independent pf s d d' c c' :
+  reader_okb pf s d = true -> reader_okb pf s d' = true -> attrs_nodupb d = true -> presentation_equiv d d' ->
+  load_xmi pf s false d = Ok c -> load_xmi pf s false d' = Ok c' -> canon_loaded s c' = canon_loaded s c.
+Proof.
+  intros H1 H2 Ha He L1 L2. rewrite (load_xmi_is_denotation pf s d c H1 L1), (load_xmi_is_denotation pf s d' c' H2 L2).
+  assert (Hd : doc_ok_xmi pf s d = true).
+  { unfold reader_okb in H1. rewrite !andb_true_iff in H1. tauto. }
+  destruct (denote_xmi_presentation_invariant pf s d d' Hd Ha He) as (E & _). exact E.
+Qed.
